@@ -69,6 +69,49 @@ func headerOf(text string) (hdrVars, hdrClauses, nbLines, maxVar int) {
 	return
 }
 
+// lexText splits a printed text into the lexed tokens the reference readers of Formats.tla work on:
+// lines, whitespace-separated tokens, and the shape of each token (integer, xK / ~xK, anything else).
+// A line starting with the comment character of the format is one "com" token; the "p cnf" header line
+// of a DIMACS text is left out (its counts are reported separately). No grammar is applied here.
+func lexText(text string, opb bool) []M {
+	toks := []M{}
+	tk := func(k string, v int, s string) M { return M{"k": k, "v": v, "s": s} }
+	lines := strings.Split(text, "\n")
+	for li, line := range lines {
+		last := li == len(lines)-1
+		f := strings.Fields(line)
+		switch {
+		case len(f) == 0:
+		case opb && strings.HasPrefix(f[0], "*"), !opb && f[0] == "c":
+			toks = append(toks, tk("com", 0, ""))
+		case !opb && f[0] == "p":
+			continue // the header line and its line end
+		default:
+			for _, t := range f {
+				if v, err := strconv.Atoi(t); err == nil {
+					toks = append(toks, tk("num", v, ""))
+					continue
+				}
+				name, sign := t, 1
+				if strings.HasPrefix(name, "~") {
+					name, sign = name[1:], -1
+				}
+				if strings.HasPrefix(name, "x") {
+					if v, err := strconv.Atoi(name[1:]); err == nil && v > 0 && !strings.HasPrefix(name[1:], "+") {
+						toks = append(toks, tk("var", sign*v, ""))
+						continue
+					}
+				}
+				toks = append(toks, tk("sym", 0, t))
+			}
+		}
+		if !last {
+			toks = append(toks, tk("nl", 0, ""))
+		}
+	}
+	return toks
+}
+
 func propositional(d M) bool {
 	for _, c := range d["cons"].([]M) {
 		if c["d"].(int) != 1 {
@@ -201,6 +244,7 @@ func Formats(c Case) (out Case) {
 			r["orig"], r["hasObj"], r["obj"] = orig, hasObj, objO
 			r["re"], r["hasObjRe"], r["objRe"] = emptyDump(), false, M{"lits": []int{}, "w": []int{}}
 			r["hdr"], r["hdrVars"], r["hdrClauses"], r["nbLines"], r["maxVar"], r["reErr"], r["strictN"] = false, 0, 0, 0, 0, false, false
+			r["lex"] = []M{}
 			if printer == "pb.CNF" && (!propositional(orig) || hasObj) {
 				evs = append(evs, M{"op": "skip", "why": "a cardinality / PB / optimisation problem has no DIMACS rendering"})
 				continue
@@ -234,6 +278,7 @@ func Formats(c Case) (out Case) {
 					panic("harness: unknown printer " + printer)
 				}
 				r["text"] = text
+				r["lex"] = lexText(text, printer != "pb.CNF")
 				if err != nil {
 					r["reErr"], r["msg"] = true, err.Error()
 					return
@@ -251,6 +296,7 @@ func Formats(c Case) (out Case) {
 			r["orig"] = dumpExplain(pb)
 			r["re"] = M{"n": 0, "nb": 0, "clauses": [][]int{}}
 			r["hdrVars"], r["hdrClauses"], r["nbLines"], r["maxVar"], r["reErr"] = 0, 0, 0, 0, false
+			r["lex"] = []M{}
 			func() {
 				defer func() {
 					if x := recover(); x != nil {
@@ -259,6 +305,7 @@ func Formats(c Case) (out Case) {
 				}()
 				text := pb.CNF()
 				r["text"] = text
+				r["lex"] = lexText(text, false)
 				r["hdrVars"], r["hdrClauses"], r["nbLines"], r["maxVar"] = headerOf(text)
 				re, err := explain.ParseCNF(strings.NewReader(text))
 				if err != nil {
